@@ -70,6 +70,15 @@ def scenarios():
     # one StructuredMessage object refilled and sent three times
     S["structured-reused-object"] = {"alice": [("open", "s", "bob", 0, False), ("sends_reuse", "s", "a1"), ("sends_reuse", "s", "a2"), ("sends_reuse", "s", "a3")],
                                      "bob": [("open", "s", "alice", 0, False), ("recvs", "s"), ("recvs", "s"), ("recvs", "s")]}
+    # the side that starts second connects with timeout 0 ("the peer must already be there"); if it was too early it connects normally
+    S["late-starter-zero-timeout"] = {"alice": [("open", "s", "bob", 0, False), ("recv", "s")],
+                                      "bob": [("pause", 4), ("open_t", "s", "alice", 0, 0.0), ("open", "s", "alice", 0, False), ("send", "s", "b1")]}
+    # messages of length zero are messages too
+    S["empty-message"] = {"alice": [("open", "s", "bob", 0, False), ("send", "s", ""), ("send", "s", "a2")],
+                          "bob": [("open", "s", "alice", 0, False), ("recv", "s"), ("recv", "s"), ("recv_nb", "s")]}
+    S["broadcast-empty-message"] = {"alice": [("bopen", "c", ["bob", "charlie"]), ("bsend_raw", ""), ("bsend", "a2")],
+                                    "bob": [("bopen", "c", ["alice", "charlie"]), ("brecv",), ("brecv",)],
+                                    "charlie": [("bopen", "c", ["alice", "bob"]), ("brecv",), ("brecv",)]}
     S["broadcast-3"] = {"alice": [("bopen", "c", ["bob", "charlie"]), ("bsend", "a1"), ("brecv",), ("brecv",)],
                         "bob": [("bopen", "c", ["alice", "charlie"]), ("bsend", "b1"), ("brecv",), ("brecv",)],
                         "charlie": [("bopen", "c", ["alice", "bob"]), ("bsend", "c1"), ("brecv",), ("brecv",)]}
@@ -96,6 +105,8 @@ class Endpoint:
                 continue
             if k == "open":
                 _, sn, remote, sid, cb = op
+                if sn in self.socks:
+                    continue
                 s.record(("call", me, "open", sn, remote, sid, cb))
                 try:
                     cls = _callback_class(s, me, sn) if cb else ThreadSocket
@@ -109,6 +120,24 @@ class Endpoint:
                     s.record(("ret", me, "open", sn, f"{type(e).__name__}"))
                     return
                 continue
+            if k == "open_t":
+                # connect with a given (small) timeout; whether the peer is already waiting is observed at the call
+                _, sn, remote, sid, tmo = op
+                if sn in self.socks:
+                    continue
+                import netqasm.sdk.classical_communication.thread_socket.socket_hub as hubmod
+                present = (remote, me, sid) in getattr(hubmod._socket_hub, "_open_sockets", ())
+                s.record(("call", me, "open_t", sn, remote, sid, tmo))
+                try:
+                    sock = ThreadSocket(me, remote, socket_id=sid, timeout=tmo)
+                    self.socks[sn] = sock
+                    self.keep.append(sock)
+                    s.record(("ret", me, "open_t", sn, "ok", present))
+                except BaseException as e:
+                    if isinstance(e, (vs.SchedBound, vs.SchedDeadlock)):
+                        raise
+                    s.record(("ret", me, "open_t", sn, f"{type(e).__name__}", present))
+                continue
             if k == "bopen":
                 s.record(("call", me, "bopen"))
                 try:
@@ -120,6 +149,16 @@ class Endpoint:
                         raise
                     s.record(("ret", me, "bopen", f"{type(e).__name__}"))
                     return
+                continue
+            if k == "bsend_raw":
+                s.record(("call", me, "bsend", op[1]))
+                try:
+                    self.chan.send(op[1])
+                    s.record(("ret", me, "bsend", op[1], "raw", "ok"))
+                except BaseException as e:
+                    if isinstance(e, (vs.SchedBound, vs.SchedDeadlock)):
+                        raise
+                    s.record(("ret", me, "bsend", op[1], "raw", f"{type(e).__name__}"))
                 continue
             if k == "bsend":
                 s.record(("call", me, "bsend", op[1]))
@@ -216,6 +255,8 @@ def _callback_class(s, me, sn):
 # ---- one schedule ----------------------------------------------------------------------------------------------------
 
 def run_schedule(script, chooser, step_bound=6000):
+    if any(op[0] == "bopen" for ops in script.values() for op in ops):
+        step_bound = 20000     # the broadcast receive is a busy poll over all sockets: a lost message shows as a (virtual) timeout
     s = vs.Scheduler(chooser, step_bound=step_bound)
     keep = []
     vs.install(s)
@@ -250,6 +291,11 @@ def judge(script, s: vs.Scheduler):
     for name, e in s.errors.items():
         return f"endpoint {name} crashed with {type(e).__name__}: {e}"
     log = s.log
+    # rendezvous with a zero / small connect timeout: a peer that is already waiting must be found
+    for ev in log:
+        if ev[0] == "ret" and ev[2] == "open_t" and ev[4] != "ok" and ev[5]:
+            return (f"endpoint {ev[1]} connecting with a small timeout failed ({ev[4]}) although its peer had already opened its side "
+                    f"and was waiting")
     # rendezvous
     for ev in log:
         if ev[0] == "ret" and ev[2] in ("open", "bopen") and ev[-1] != "ok":
@@ -324,7 +370,7 @@ def judge(script, s: vs.Scheduler):
     brecv = {}
     for ev in log:
         if ev[0] == "ret" and ev[2] == "bsend" and ev[-1] == "ok":
-            bsent.setdefault(ev[1], []).append(f"{ev[1]}:{ev[3]}")
+            bsent.setdefault(ev[1], []).append(ev[3] if len(ev) == 6 else f"{ev[1]}:{ev[3]}")
         if ev[0] == "ret" and ev[2] == "brecv":
             if ev[3] is None:
                 return f"broadcast receive of {ev[1]} failed with {ev[4][1:]}"
